@@ -187,9 +187,16 @@ func TestErrors(t *testing.T) {
 
 	var current error
 	var currentVal any
+	started := make(chan string, 1)
 	mux := handler.Map{
 		"fail": func(ctx context.Context, req *jrpc2.Request) (any, error) { return nil, current },
 		"val":  func(ctx context.Context, req *jrpc2.Request) (any, error) { return currentVal, nil },
+		// the handler's own error must reach the caller also when its context was cancelled meanwhile
+		"failc": func(ctx context.Context, req *jrpc2.Request) (any, error) {
+			started <- req.ID()
+			<-ctx.Done()
+			return nil, current
+		},
 		"viacb": func(ctx context.Context, req *jrpc2.Request) (any, error) {
 			_, err := jrpc2.ServerFromContext(ctx).Callback(ctx, "cb", nil)
 			if err == nil {
@@ -245,6 +252,18 @@ func TestErrors(t *testing.T) {
 			he := herr.(*jrpc2.Error)
 			if je := rsps[0].Error(); je.Message != he.Message || !jsonEqual(je.Data, he.Data) {
 				add(c.Tree, "Batch", fmt.Sprintf("*Error changed in transit: sent %+v, got %+v", he, je))
+			}
+		}
+		// the same error returned after the request was cancelled with CancelRequest (the handler still returns its own error)
+		if i%4 == 1 {
+			done := make(chan error, 1)
+			go func() { _, err := loc.Client.Call(ctx, "failc", nil); done <- err }()
+			id := <-started
+			loc.Server.CancelRequest(id)
+			cerr2 := <-done
+			res.Evaluations++
+			if why := checkClient(c, herr, cerr2); why != "" {
+				add(c.Tree, "Call after CancelRequest", why)
 			}
 		}
 		// through a server Callback: the client-side callback handler returns the error
